@@ -27,11 +27,16 @@ def str_lit(s):
     return "".join(out)
 
 
-def num_text(s, m, e):
-    """Exact decimal text of s*m*2^e (dyadic => finite decimal expansion)."""
+def num_text(s, m, e, d=0):
+    """Exact decimal text of s*m*2^e (dyadic => finite decimal expansion); with d != 0 (Values.tla NumD,
+    m = 1) of the double |d| grid steps above / below the power of two 2^e."""
     if m == 0:
         return "-0" if s < 0 else "0"
     fr = Fraction(m) * (Fraction(2) ** e)
+    if d > 0:
+        fr += d * Fraction(2) ** (e - 52)
+    elif d < 0:
+        fr += d * Fraction(2) ** (e - 53)
     if fr.denominator == 1:
         t = str(fr.numerator)
     else:
@@ -52,7 +57,7 @@ def value_expr(v, r=None):
     if t == "bool":
         return "true" if v["b"] else "false"
     if t == "num":
-        txt = num_text(v["s"], v["m"], v["e"])
+        txt = num_text(v["s"], v["m"], v["e"], v.get("d", 0))
         return "(" + txt + ")" if txt.startswith("-") else txt
     if t == "str":
         return str_lit(cps_to_str(v["c"]))
